@@ -2,6 +2,7 @@ import SgVerif.C27.Model
 import SgVerif.Common.Proto
 open SgVerif.Proto
 namespace SgVerif.C27
+open SgVerif.Xbt
 
 def hexDigit (c : Char) : Option Nat := hexVal c
 
